@@ -26,10 +26,11 @@ const (
 	endLimit                      // per-path budget exhausted
 	endAssume                     // Assume() pruned the path
 	endStop                       // harness asked to stop / violated assertion cannot be assumed
+	endExhausted                  // queued "another value?" alternative of a concretisation had none (not an error)
 )
 
 func (k endKind) String() string {
-	return [...]string{"infeasible", "unsupported", "outside", "limit", "assume", "stop"}[k]
+	return [...]string{"infeasible", "unsupported", "outside", "limit", "assume", "stop", "exhausted"}[k]
 }
 
 // pathEnd is the executor's own control panic. It is never visible to the target's recover().
@@ -139,9 +140,15 @@ func (s *Solver) checkSat(extra string, keep bool) string {
 	if !keep {
 		s.send("(pop 1)")
 	}
-	s.Time += time.Since(t0)
+	d := time.Since(t0)
+	s.Time += d
+	if slowLogMs > 0 && d > time.Duration(slowLogMs)*time.Millisecond {
+		fmt.Fprintf(os.Stderr, "SLOW %s %.1fs %s: %s\n", s.Name, d.Seconds(), r, extra)
+	}
 	return r
 }
+
+var slowLogMs = func() int { n, _ := strconv.Atoi(os.Getenv("GOSYM_SLOW")); return n }()
 
 func (s *Solver) pop() { s.send("(pop 1)") }
 
@@ -541,6 +548,8 @@ type Explorer struct {
 	models  map[string]int
 	pathViolated bool
 	uid     int
+	terms   map[string]sym
+	fp      bool // the path has floating-point terms: one-shot queries
 	harnessState
 }
 
@@ -579,6 +588,8 @@ func (x *Explorer) startPath(prefix []decision) {
 	x.script = x.script[:0]
 	x.pathViolated = false
 	x.uid = 0
+	x.fp = false
+	x.terms = map[string]sym{}
 	x.resetHarnessState()
 	x.S.send("(reset)")
 	for i, s := range x.sec {
@@ -589,8 +600,58 @@ func (x *Explorer) startPath(prefix []decision) {
 
 // perm sends a permanent (path-level) command.
 func (x *Explorer) perm(cmd string) {
-	x.S.send(cmd)
+	if !x.fp && (strings.Contains(cmd, "to_fp") || strings.Contains(cmd, "fp.")) {
+		// z3's incremental core is orders of magnitude slower on floating point than its one-shot
+		// tactic pipeline (measured here: 2 s / timeouts vs 0.1 s). From the first FP term on, every
+		// query of this path is asked one-shot: (reset), replay the path's script, assert, check-sat.
+		x.fp = true
+	}
+	if !x.fp {
+		x.S.send(cmd)
+	}
 	x.script = append(x.script, cmd)
+}
+
+// query asks the primary solver for pc AND extra. keep leaves the model readable (popModel() ends that).
+func (x *Explorer) query(extra string, keep bool) string {
+	if !x.fp {
+		return x.S.checkSat(extra, keep)
+	}
+	s := x.S
+	t0 := time.Now()
+	s.Queries++
+	s.send("(reset)")
+	for _, c := range x.script {
+		s.send(c)
+	}
+	if extra != "" {
+		s.send("(assert " + extra + ")")
+	}
+	s.send("(check-sat)")
+	r := s.readLine()
+	for strings.HasPrefix(r, "(error") {
+		nxt := s.readLine()
+		if nxt == "sat" || nxt == "unsat" || nxt == "unknown" || s.dead {
+			r = "error"
+			break
+		}
+		r = nxt
+	}
+	if r != "sat" && r != "unsat" && r != "unknown" {
+		r = "error"
+	}
+	d := time.Since(t0)
+	s.Time += d
+	if slowLogMs > 0 && d > time.Duration(slowLogMs)*time.Millisecond {
+		fmt.Fprintf(os.Stderr, "SLOW(one-shot) %s %.1fs %s: %s\n", s.Name, d.Seconds(), r, extra)
+	}
+	return r
+}
+
+func (x *Explorer) popModel() {
+	if !x.fp {
+		x.S.pop()
+	}
 }
 
 func (x *Explorer) syncSecondary(i int) {
@@ -659,7 +720,7 @@ func (x *Explorer) decide(c sym, why string) bool {
 		x.sh.mu.Lock()
 		x.sh.FeasQueries++
 		x.sh.mu.Unlock()
-		rt := x.S.checkSat(c.e, false)
+		rt := x.query(c.e, false)
 		switch rt {
 		case "unsat":
 			b = false
@@ -670,7 +731,7 @@ func (x *Explorer) decide(c sym, why string) bool {
 			x.sh.mu.Lock()
 			x.sh.FeasQueries++
 			x.sh.mu.Unlock()
-			rf := x.S.checkSat("(not "+c.e+")", false)
+			rf := x.query("(not "+c.e+")", false)
 			if rf != "sat" && rf != "unsat" {
 				x.noteUnknownFeas()
 			}
@@ -738,28 +799,28 @@ func (x *Explorer) concretize(s sym, why string) uint64 {
 		} else if len(cs) > 1 {
 			extra = "(and " + strings.Join(cs, " ") + ")"
 		}
-		r := x.S.checkSat(extra, true)
+		r := x.query(extra, true)
 		if r != "sat" {
-			x.S.pop()
+			x.popModel()
 			if r == "unsat" {
-				panic(pathEnd{kind: endInfeasible, msg: "no further value"})
+				panic(pathEnd{kind: endExhausted, msg: "no further value"})
 			}
 			panic(unsupported("solver " + r + " while concretising at " + why))
 		}
 		vals := x.S.getValues([]string{s.e})
-		x.S.pop()
+		x.popModel()
 		u, ok := parseBV(vals[s.e])
 		if !ok {
 			panic(unsupported("cannot parse model value " + vals[s.e]))
 		}
 		v = u
 		nx := append(append([]uint64{}, excl...), v)
-		if len(nx) < x.sh.Cfg.MaxValues {
-			x.queueAlt(decision{kind: dValue, pending: true, excl: nx})
-		} else {
-			// is there one more? then the bound is reduced
-			r := x.S.checkSat("(and "+strings.Join(append(cs, "(not (= "+s.e+" "+x.valLit(s, v)+"))"), " ")+")", false)
-			if r != "unsat" {
+		// is there one more value? (one query now saves a whole re-execution that would only find "none")
+		more := x.query("(and "+strings.Join(append(append([]string{"true"}, cs...), "(not (= "+s.e+" "+x.valLit(s, v)+"))"), " ")+")", false)
+		if more != "unsat" {
+			if len(nx) < x.sh.Cfg.MaxValues {
+				x.queueAlt(decision{kind: dValue, pending: true, excl: nx})
+			} else {
 				x.boundReduced("more than " + strconv.Itoa(x.sh.Cfg.MaxValues) + " values at concretisation site: " + why)
 			}
 		}
@@ -793,7 +854,7 @@ func (x *Explorer) assume(c value) {
 			panic(pathEnd{kind: endAssume, msg: "Assume(false)"})
 		}
 	case sym:
-		r := x.S.checkSat(c.e, false)
+		r := x.query(c.e, false)
 		if r == "unsat" {
 			panic(pathEnd{kind: endAssume, msg: "assumption unsatisfiable on this path"})
 		}
@@ -924,26 +985,26 @@ func (x *Explorer) assert(label string, c value) {
 		sh.mu.Unlock()
 		if !c {
 			// violated for every value on this (feasible) path: extract a model of the path condition
-			r := x.S.checkSat("", true)
+			r := x.query("", true)
 			var m []ModelVal
 			var ev []string
 			if r == "sat" {
 				m = x.model()
 				ev = x.renderedEvents()
 			}
-			x.S.pop()
+			x.popModel()
 			x.recordViolation(label, true, m, ev, nil)
 		}
 		return
 	case sym:
-		r := x.S.checkSat("(not "+c.e+")", true)
+		r := x.query("(not "+c.e+")", true)
 		var m []ModelVal
 		var ev []string
 		if r == "sat" {
 			m = x.model()
 			ev = x.renderedEvents()
 		}
-		x.S.pop()
+		x.popModel()
 		cross := map[string]string{}
 		for i, s2 := range x.sec {
 			x.syncSecondary(i)
@@ -981,7 +1042,7 @@ func (x *Explorer) assert(label string, c value) {
 		if r == "sat" {
 			x.recordViolation(label, false, m, ev, cross)
 			// continue under the assumption that the assertion holds, if that is possible
-			if x.S.checkSat(c.e, false) == "unsat" {
+			if x.query(c.e, false) == "unsat" {
 				panic(pathEnd{kind: endStop, msg: "assertion violated on the whole path"})
 			}
 			x.perm("(assert " + c.e + ")")
@@ -1029,11 +1090,11 @@ func (x *Explorer) endPath(end string, msg string) {
 		need := len(sh.Witnesses) < sh.Cfg.Witnesses
 		sh.mu.Unlock()
 		if need {
-			r := x.S.checkSat("", true)
+			r := x.query("", true)
 			if r == "sat" {
 				w = &Witness{Path: x.pathString(), Model: x.model(), Choices: x.choices(), Events: x.renderedEvents()}
 			}
-			x.S.pop()
+			x.popModel()
 		}
 	}
 	twin := ""
@@ -1041,7 +1102,7 @@ func (x *Explorer) endPath(end string, msg string) {
 		if len(x.vars) == 0 {
 			twin = "sat"
 		} else {
-			twin = x.S.checkSat("", false)
+			twin = x.query("", false)
 		}
 	}
 	sh.mu.Lock()
